@@ -411,7 +411,12 @@ Inductive ser (voc : list (list Z)) : obj -> wobj -> Prop :=
 
 (* ---- method schemas *)
 Record argspec := { a_name : Z; a_ctr : ctr; a_opt : bool }.     (* a_opt: declared Optional(...) (unwrapped in a_ctr) *)
-Record mschema := { ms_args : list argspec; ms_resp : option ctr }.
+Record mschema := { ms_args : list argspec; ms_resp : option ctr;
+                    ms_ignore : bool; ms_accept : bool }.   (* __ignoreUnknown__ / __acceptUnknown__ of RemoteMethodSchema( **kw ) *)
+
+(* what initFromMethod (prototype function) and RemoteMethodSchema( **kwargs ) without the two special names build *)
+Definition mkms (args : list argspec) (resp : option ctr) : mschema :=
+  {| ms_args := args; ms_resp := resp; ms_ignore := false; ms_accept := false |}.
 
 Definition names (ms : mschema) : list Z := map a_name (ms_args ms).
 
@@ -433,27 +438,178 @@ Definition arg_ok (ms : mschema) (nv : Z * obj) : bool :=
 Definition required_ok (ms : mschema) (bound : list Z) : bool :=
   forallb (fun a => a_opt a || memZ (a_name a) bound) (ms_args ms).
 
-(* RemoteMethodSchema.checkAllArgs (ignoreUnknown / acceptUnknown left False, as initFromMethod does) *)
+(* RemoteMethodSchema.getPositionalArgConstraint / getKeywordArgConstraint: (accept, constraint) | Violation | another
+   exception (IndexError: cannot happen while the range test stands before the subscript) *)
+Inductive gac := GViol | GOther | GC (accept : bool) (c : option ctr).
+
+Definition getPositionalArgConstraint (ms : mschema) (argnum : Z) : gac :=
+  if scmp_eval posarg_full_cmp argnum (zlen (ms_args ms)) then GViol          (* too many positional arguments *)
+  else match nth_error (ms_args ms) (Z.to_nat argnum) with
+       | Some a => GC true (Some (a_ctr a))                                   (* an Optional is unwrapped: a_ctr *)
+       | None => GOther
+       end.
+
+(* previous_args = argumentNames[:num_posargs] + previous_kwargs is passed in as prev *)
+Definition getKeywordArgConstraint (ms : mschema) (n : Z) (prev : list Z) : gac :=
+  if memZ n prev then GViol                                                   (* got multiple values for keyword argument *)
+  else match lookup n (ms_args ms) with
+       | Some a => GC true (Some (a_ctr a))
+       | None => if ms_ignore ms then GC false None                           (* "silently dropped" *)
+                 else if ms_accept ms then GC true None                       (* "accepted without a constraint" *)
+                 else GViol                                                   (* unknown argument *)
+       end.
+
+(* for argname, argvalue in allargs.items(): accept, constraint = self.getKeywordArgConstraint(argname);
+   constraint.checkObject(argvalue, inbound)   -- with constraint = None this is an AttributeError, not a Violation *)
+Fixpoint check_each (ms : mschema) (l : list (Z * obj)) : res unit :=
+  match l with
+  | [] => Ok tt
+  | (n, v) :: l' =>
+      match getKeywordArgConstraint ms n [] with
+      | GViol => Exc "Violation"%string
+      | GOther => Exc "IndexError"%string
+      | GC _ None => Exc "AttributeError"%string
+      | GC _ (Some c) => if checkObject c v then check_each ms l' else Exc "Violation"%string
+      end
+  end.
+
+(* RemoteMethodSchema.checkAllArgs *)
 Definition checkAllArgs (ms : mschema) (args : list obj) (kwargs : list (Z * obj)) : res unit :=
   if scmp_eval args_count_cmp (zlen args) (zlen (ms_args ms)) then Exc "Violation"%string
   else match add_kwargs (combine (names ms) args) kwargs with
        | None => Exc "Violation"%string
        | Some allargs =>
-           if negb (forallb (arg_ok ms) allargs) then Exc "Violation"%string
-           else if negb (required_ok ms (map fst allargs)) then Exc "Violation"%string
-           else Ok tt
+           match check_each ms allargs with
+           | Exc e => Exc e
+           | Ok _ => if negb (required_ok ms (map fst allargs)) then Exc "Violation"%string else Ok tt
+           end
        end.
 
-Inductive cv := CInvoke (args : list obj) (kwargs : list (Z * obj)) | CViol | CAbort.
+(* CFail: the call fails with an exception that is not a Violation (the caller gets a RemoteException), connection alive *)
+Inductive cv := CInvoke (args : list obj) (kwargs : list (Z * obj)) | CViol | CAbort | CFail.
 
 (* Broker._doCall, shape read from the source: the check dominates the invocation, on the same objects *)
 Definition doCall (ms : mschema) (args : list obj) (kwargs : list (Z * obj)) : cv :=
   match doCall_shape with
-  | CheckedBeforeCall => match checkAllArgs ms args kwargs with Ok _ => CInvoke args kwargs | Exc _ => CViol end
+  | CheckedBeforeCall =>
+      match checkAllArgs ms args kwargs with
+      | Ok _ => CInvoke args kwargs
+      | Exc e => if String.eqb e "Violation" then CViol else CFail
+      end
   | NotChecked => CInvoke args kwargs
   end.
 
-(* ArgumentUnslicer: positional arguments *)
+(* ---- ArgumentUnslicer, as the state machine it is: one step per child of the `arguments` sequence.  The peer chooses
+   every token, including the positional-argument COUNT (first child); whether a later token is a positional value, a
+   keyword name or a keyword value is decided by the receiver's state alone.  Stage tests, the `if self.numargs:` guard,
+   the first index and the `assert accept` lines are read from call.py (the au_ definitions of gen/SchemaGen.v). *)
+Record austate := { au_numargs : option Z; au_args : list obj; au_kwargs : list (Z * obj);
+                    au_argname : option Z; au_ctr : option ctr }.
+
+Definition au_init : austate := {| au_numargs := None; au_args := []; au_kwargs := []; au_argname := None; au_ctr := None |}.
+
+Inductive austep := AuGo (st : austate) | AuViol | AuAbort.
+
+(* a keyword name as the model's identifier: the bytes of the STRING / VOCAB token, base 256 behind a leading 1 (injective) *)
+Definition name_code (bs : list Z) : Z := fold_left (fun acc b => acc * 256 + b) bs 1.
+
+(* accept, self.argConstraint = ms.getXArgConstraint(..); assert accept *)
+Definition au_take (g : gac) (k : option ctr -> austate) : austep :=
+  match g with
+  | GViol => AuViol
+  | GOther => AuAbort
+  | GC accept c => if au_asserts_accept && negb accept then AuAbort else AuGo (k c)
+  end.
+
+Inductive austage := AuCount | AuPos | AuKwName | AuKwValue.
+
+(* the dispatch at the head of checkToken / receiveChild *)
+Definition au_stage (st : austate) : austage :=
+  match au_numargs st with
+  | None => AuCount
+  | Some na =>
+      if scmp_eval au_pos_cmp (zlen (au_args st)) na then AuPos
+      else match au_argname st with None => AuKwName | Some _ => AuKwValue end
+  end.
+
+Definition au_child (ms : mschema) (st : austate) (w : wobj) : austep :=
+  match au_stage st with
+  | AuCount =>
+      match w with
+      | WInt tb _ n =>
+          if negb (tb =? tok_INT) then AuAbort                      (* BananaError: posarg count must be an INT *)
+          else
+            let st1 := {| au_numargs := Some n; au_args := au_args st; au_kwargs := au_kwargs st;
+                          au_argname := au_argname st; au_ctr := au_ctr st |} in
+            if au_count_zero_skips && (n =? 0) then AuGo st1        (* `if self.numargs:` *)
+            else au_take (getPositionalArgConstraint ms au_first_index)
+                         (fun c => {| au_numargs := Some n; au_args := au_args st; au_kwargs := au_kwargs st;
+                                      au_argname := au_argname st; au_ctr := c |})
+      | _ => AuAbort
+      end
+  | AuPos =>
+      match recvw (au_ctr st) w with
+      | RViol => AuViol
+      | RAbort => AuAbort
+      | RDeliver x =>
+          let args' := au_args st ++ [x] in
+          let st1 := {| au_numargs := au_numargs st; au_args := args'; au_kwargs := au_kwargs st;
+                        au_argname := au_argname st; au_ctr := au_ctr st |} in
+          match au_numargs st with
+          | Some na =>
+              if scmp_eval au_pos_cmp (zlen args') na                (* more to come *)
+              then au_take (getPositionalArgConstraint ms (zlen args'))
+                           (fun c => {| au_numargs := au_numargs st; au_args := args'; au_kwargs := au_kwargs st;
+                                        au_argname := au_argname st; au_ctr := c |})
+              else AuGo st1
+          | None => AuGo st1
+          end
+      end
+  | AuKwName =>
+      match w with
+      | WStr _ _ bs =>                                               (* STRING or VOCAB, any size *)
+          let n := name_code bs in
+          let na := match au_numargs st with Some na => na | None => 0 end in
+          au_take (getKeywordArgConstraint ms n (firstn (Z.to_nat na) (names ms) ++ map fst (au_kwargs st)))
+                  (fun c => {| au_numargs := au_numargs st; au_args := au_args st; au_kwargs := au_kwargs st;
+                               au_argname := Some n; au_ctr := c |})
+      | _ => AuAbort                                                 (* BananaError: kwarg name must be a STRING *)
+      end
+  | AuKwValue =>
+      match recvw (au_ctr st) w with
+      | RViol => AuViol
+      | RAbort => AuAbort
+      | RDeliver x =>
+          let n := match au_argname st with Some n => n | None => 0 end in
+          AuGo {| au_numargs := au_numargs st; au_args := au_args st; au_kwargs := au_kwargs st ++ [(n, x)];
+                  au_argname := None; au_ctr := au_ctr st |}
+      end
+  end.
+
+(* receiveClose: "'arguments' sequence ended too early" (BananaError) unless the count was seen, all counted positional
+   values arrived and no keyword name is waiting for its value *)
+Definition au_close (st : austate) : option (list obj * list (Z * obj)) :=
+  match au_stage st with
+  | AuKwName => Some (au_args st, au_kwargs st)
+  | _ => None
+  end.
+
+Fixpoint au_run (ms : mschema) (st : austate) (items : list wobj) {struct items} : cv :=
+  match items with
+  | [] => match au_close st with Some (a, kw) => doCall ms a kw | None => CAbort end
+  | w :: rest =>
+      match au_child ms st w with
+      | AuGo st' => au_run ms st' rest
+      | AuViol => CViol                                              (* the rest of the sequence is discarded *)
+      | AuAbort => CAbort
+      end
+  end.
+
+(* an inbound `call` whose `arguments` sequence has the children items (ANY wire trees, the count included) *)
+Definition recv_arguments (ms : mschema) (items : list wobj) : cv := au_run ms au_init items.
+
+(* ---- the same for streams whose count token equals the number of positional wire trees (every honest sender's):
+   positional arguments ... *)
 Fixpoint recv_pos (ms : mschema) (ws : list wobj) (i : nat) {struct ws} : krv :=
   match ws with
   | [] => KOk []
@@ -473,16 +629,17 @@ Fixpoint recv_kw (ms : mschema) (prev : list Z) (kws : list (Z * wobj)) {struct 
   match kws with
   | [] => KwOk []
   | (n, w) :: kws' =>
-      if memZ n prev then KwViol                                    (* got multiple values for keyword argument *)
-      else match lookup n (ms_args ms) with
-           | None => KwViol                                         (* unknown argument *)
-           | Some a =>
-               match recvw (Some (a_ctr a)) w with
+      match getKeywordArgConstraint ms n prev with
+      | GViol => KwViol
+      | GOther => KwAbort
+      | GC accept oc =>
+          if au_asserts_accept && negb accept then KwAbort             (* AssertionError escapes dataReceived *)
+          else match recvw oc w with
                | RDeliver x => match recv_kw ms (prev ++ [n]) kws' with KwOk l => KwOk ((n, x) :: l) | e => e end
                | RViol => KwViol
                | RAbort => KwAbort
                end
-           end
+      end
   end.
 
 (* an inbound `call` whose arguments sequence carries the positional wire trees pos and keyword wire trees kws *)
@@ -496,6 +653,13 @@ Definition recv_call (ms : mschema) (pos : list wobj) (kws : list (Z * wobj)) : 
       end
   end.
 
+(* the children of the `arguments` sequence of such a stream: count, positional trees, (name, tree) pairs *)
+Definition enc_kws (kwsb : list (list Z * wobj)) : list wobj :=
+  flat_map (fun p => [WStr false (zlen (fst p)) (fst p); snd p]) kwsb.
+Definition enc_args (pos : list wobj) (kwsb : list (list Z * wobj)) : list wobj :=
+  WInt tok_INT (zlen pos) (zlen pos) :: pos ++ enc_kws kwsb.
+Definition code_kws (kwsb : list (list Z * wobj)) : list (Z * wobj) := map (fun p => (name_code (fst p), snd p)) kwsb.
+
 (* an inbound `answer` for a request whose result constraint is oc *)
 Inductive av := Callback (v : obj) | Errback | ConnLost.
 
@@ -507,6 +671,13 @@ Definition recv_answer (oc : option ctr) (w : wobj) : av :=
       else Callback v
   | RViol => Errback
   | RAbort => ConnLost
+  end.
+
+(* the sender of a result: Broker._callFinished applies methodSchema.checkResults(res, False) and then slices the answer *)
+Definition send_answer (voc : list (list Z)) (ms : mschema) (res : obj) : option wobj :=
+  match ms_resp ms with
+  | Some c => if callFinished_checks_results && negb (checkObject c res) then None else Some (slice voc res)
+  | None => Some (slice voc res)
   end.
 
 (* the sender: callRemote checks (outbound) and then slices *)
